@@ -632,7 +632,15 @@ func RunFamily(c *core.Ctx, p Plan) {
 					continue
 				}
 				budget--
-				for _, pk := range []string{"sub", "pub"} {
+				pks := []string{"sub", "pub"}
+				if c.Quick() { // quick: every offset of one packet kind per matcher
+					if mode == "mqtt" {
+						pks = []string{"pub"}
+					} else {
+						pks = []string{"sub"}
+					}
+				}
+				for _, pk := range pks {
 					for off := 1; off <= 70; off++ {
 						w := append([]json.RawMessage{}, j.walk...)
 						w[last] = json.RawMessage(strings.TrimSuffix(string(w[last]), "}") + fmt.Sprintf(`,"cut_pk":%q,"cut_off":%d}`, pk, off))
